@@ -10,7 +10,7 @@ fn main() {
         "C13" => {
             let run = Run::new(args, "model_checking");
             run.rule("explicit-state BFS over operation histories on a fresh ReadAdapter for every (stream, chunking): all operations of the ByteReader alphabet with size arguments {0,1,2,15,16,17,255,256,257,300,remaining-1,remaining,remaining+1}; states de-duplicated on (stream, chunking, source position, EOF observations, adapter internals via the verif hook, reference position); a transition is non-trivial when both readers executed it and agreed; every transition is one trace validated against the implementation (the reference is SliceReader run in lock step)");
-            run.assume("SliceReader is the reference semantics; sources never return Ok(0) before their end (such sources are outside this run)");
+            run.assume("SliceReader is the reference semantics; 10 chunkings hand the stream out in non-empty pieces; 4 more return an empty read before the end of the stream (first read, every other read, at byte 4, at byte 256): std::io::Read defines an empty read as the end, so after one the adapter may report the end of the data early (UnexpectedEOF, has_more_bytes = false) - but it must never return a wrong value, succeed where the in-memory reader fails, or panic");
             run.assume("histories are not extended past their first error (the trait leaves the position unspecified)");
             c13::run(&run);
             run.finish()
